@@ -1,7 +1,7 @@
 (* C15 — The layout saved for the systemd service reloads as the same layout.
-   Statements only; proofs are in TM.LoaderTables (finite facts, vm_compute over
+   Statements only; proofs are in TM.KeyNames (finite facts, vm_compute over
    the regenerated key table) and TM.RoundtripLemmas. *)
-From TM Require Import Base Json RustOps Mapper Parser Convert Serde LoaderCheck LoaderTables.
+From TM Require Import Base Json RustOps Mapper Parser Convert Serde LoaderCheck StrLemmas KeyNames.
 From TMGen Require Import KeyTable.
 
 (* Every key name the tool can write is read back as the same key, for all key
